@@ -80,6 +80,17 @@ def compare(tag, x1, x2, stats, obs_map=None):
             if abs(d) > (2e-3 if ang else 2e-4):
                 fails.append("%s.adjusted_obs: %s %s->%s differ by %.3g" % (tag, a["tag"], a.get("from", a.get("id")), a.get("to", ""), d))
                 break
+            # statistics per observation (they use the standard deviation of the observation itself: the right row of the
+            # cluster's matrix also after an exclusion)
+            bad = None
+            for k in ("stdev", "qrr", "f", "std-residual", "err-obs", "err-adj"):
+                if a.get(k) is None or b.get(k) is None:
+                    continue        # (err-obs / err-adj are written only for clusters whose declared band is 0)
+                if abs(a[k] - b[k]) > 2e-3 * max(abs(a[k]), abs(b[k])) + 2e-3:
+                    bad = "%s %.6g vs %.6g" % (k, a[k], b[k])
+            if bad:
+                fails.append("%s.obs_statistics: %s %s->%s %s" % (tag, a["tag"], a.get("from", a.get("id")), a.get("to", ""), bad))
+                break
     c1, c2 = x1.get("cov"), x2.get("cov")
     if c1 and c2 and c1["dim"] == c2["dim"] and len(c1["flt"]) == len(c2["flt"]):
         scale = max([abs(u) for u in c1["flt"]] + [1.0])
@@ -275,7 +286,8 @@ def oracle_exclude(c, stats):
 
 # ------------------------------------------------------------------ (d) malformed matrices
 
-KINDS = ["indefinite", "zero_variance", "negative_variance", "dim_too_big", "dim_too_small", "too_few", "too_many", "band_ge_dim"]
+KINDS = ["indefinite", "zero_variance", "negative_variance", "dim_too_big", "dim_too_small", "too_few", "too_many", "band_ge_dim",
+         "all_zero", "single_zero"]
 
 
 @st.composite
@@ -310,6 +322,17 @@ def corrupt_text(c):
         C[n - 1, n - 1] = 0.0
     elif kind == "negative_variance":
         C[0, 0] = -abs(C[0, 0])
+    elif kind == "all_zero":
+        C[:, :] = 0.0               # no positive variance at all: a tolerance relative to the largest variance is zero
+        band = 0
+    elif kind == "single_zero":
+        # a cluster of one observation with variance zero (a one-element <cov-mat>, where the format allows one element)
+        if cl["k"] not in ("obs", "hdiff"):
+            return None, None
+        cl["obs"] = cl["obs"][:1]
+        n = 1
+        band = 0
+        C = np.zeros((1, 1))
     cl["cov"] = {"band": band, "C": C.tolist()}
     text = nm.gkf_text(net)
     # textual corruption of the <cov-mat> of that cluster
